@@ -8,6 +8,7 @@ import YashModel.Syntax.CommandLemmas
 import YashModel.Syntax.FragmentLemmas
 import YashModel.Syntax.ParserLemmas
 import YashModel.Syntax.StructLemmas
+import YashModel.Syntax.Closed
 namespace YashModel.Syntax
 
 /-- ★ Every escape unit the parser can produce is printed as text that the escape lexer reads back as the
@@ -298,6 +299,57 @@ theorem compound_with_redirections_roundtrip (n : Nat) (c : CompoundCommand) (rs
     parseCommand (n + 1) ((if sp then [' '] else []) ++ (printCommand (.compound c rs) ++ tail)) =
       some (some (.compound c rs), tail) :=
   parseCommand_compound n c rs tail ht hrs sp hstart hc
+
+/-- ★ `structure_roundtrip` (partial: the closed fragment has no `for`, `case` or function definition yet).
+    `ProgramOk l rest` is the closed fragment predicate on whole command trees (`Closed.lean`): every leaf is a
+    simple command of the proved fragment (`SimpleOk`: its words satisfy the word-level side conditions) in
+    front of a command tail, every node is a pipeline (with or without `!`), an and-or list, a `;`/`&` list, a
+    brace group, a subshell, a `while`/`until` loop or an `if` command with any number of `elif`s and an
+    optional `else`, compound commands may carry redirections, nesting is unbounded.  For every such
+    program, printing it and parsing the text with the whole model parser (`parseProgram` =
+    `maybe_compound_list` over `Parser::command`, nesting budget taken from the input length) gives the
+    program back, unconditionally; the closing `)` stands for whatever ends the list (as inside `$(…)`). -/
+theorem structure_roundtrip_partial (l : List Item) (rest : List Char) (h : ProgramOk l rest) :
+    parseProgram (printList false l ++ ')' :: rest) = some (l, ')' :: rest) :=
+  parseProgram_rt l rest h
+
+/-- the knot behind it: `Parser::command` with nesting budget `n + 1` reads back every command of the closed
+    fragment of depth at most `n` (in front of every tail, with or without a blank) -/
+theorem command_roundtrip (n : Nat) (c : Command) (tail : List Char) (h : CommandOk c tail)
+    (hd : cdepth c ≤ n) (sp : Bool) :
+    parseCommand (n + 1) ((if sp then [' '] else []) ++ (printCommand c ++ tail)) = some (some c, tail) :=
+  ((parseCommand_pcOk n).cmd c tail h hd).2 sp
+
+/-- non-vacuity on a nested program (depth 3: group ⊃ while ⊃ subshell, with `|`, `&&`, `!`, `&`, `if`/`elif`/`else`) -/
+def nested : List Item :=
+  [it1 (.compound (.grouping
+    [it1 (.compound (.whileLoop [it1 (leaf "a" [])]
+        [.mk (.mk (.mk [.compound (.subshell [it1 (leaf "b" ["x"])]) [], leaf "c" []] false)
+          [.mk true (.mk [leaf "d" []] true)]) true]) []),
+     it1 (.compound (.ifCmd [it1 (leaf "e" [])] [it1 (leaf "f" [])] [.mk [it1 (leaf "g" [])] [it1 (leaf "h" [])]]
+        true [it1 (leaf "i" [])]) [])]) [])]
+
+example : printList false nested =
+    "{ while a; do (b x) | c && ! d& done; if e; then f; elif g; then h; else i; fi; }".toList := by
+  decide +kernel
+
+theorem nested_ok (rest : List Char) : ProgramOk nested rest := by
+  simp only [ProgramOk, nested, it1, ItemsOk, AndOrOk, AndOrRestOk, PipelineOk, CommandsOk, CommandOk,
+    CompoundOk, ElifsOk, RedirsOk, pipeRest, aoRest, printRedirsSp, List.nil_append, List.singleton_append, List.cons_append, ne_eq, reduceCtorEq, not_false_eq_true, List.cons_ne_self, and_true,
+    true_and, Bool.false_eq_true, if_false, if_true]
+  and_intros
+  all_goals first
+    | trivial
+    | exact leaf_ok _ _ (by decide) (by decide) (by decide) _ (tailOk_cons _ _ (by decide))
+    | exact leaf_ok _ _ (by decide) (by decide) (by decide) _ ⟨true, _, _, rfl, by decide⟩
+    | exact tailOk_cons _ _ (by decide)
+    | exact ⟨true, _, _, rfl, by decide⟩
+    | skip
+
+
+example (rest : List Char) :
+    parseProgram (printList false nested ++ ')' :: rest) = some (nested, ')' :: rest) :=
+  structure_roundtrip_partial nested rest (nested_ok rest)
 
 /-! ### Instances (kernel evaluation of the whole model parser on printed programs) -/
 
